@@ -125,9 +125,13 @@ class Recorder:
             raise StopSection()
         return v
 
-    def fact(self, label, ok: bool, *, key=None, detail=None, reproduced=True):
+    def fact(self, label, ok: bool, *, key=None, detail=None, reproduced="auto"):
         """A verdict obtained by exhaustive path exploration rather than one solver query
-        (e.g. a structural run).  ok=False is a violation already reproduced by `detail`."""
+        (e.g. a structural run).  ok=False is a violation already reproduced by `detail`.
+        An exception met while executing the code symbolically ("…/runs") is only a violation if a replay on the
+        real library confirms it; without a replay it is a harness error (the engine may simply lack an encoding)."""
+        if reproduced == "auto":
+            reproduced = None if (label.endswith("/runs") or (key or "").endswith("raises")) else True
         rec = {
             "label": label,
             "section": self.section,
